@@ -322,3 +322,52 @@ pub async fn bitar_chunks(cfg: &bitar::chunker::Config, data: Arc<Vec<u8>>, rs: 
     }
     Ok(out)
 }
+
+
+// ---------------------------------------------------------------------------------------
+// the library writer in a process of its own
+
+#[derive(serde::Serialize, serde::Deserialize)]
+struct LibCompressJob {
+    source: crate::gen::SourceSpec,
+    cfg: ArchCfg,
+    reads: ReadScript,
+    metadata: BTreeMap<String, Vec<u8>>,
+}
+
+/// `bverif --lib-compress <job.json> <out>`: exit 0 and the archive in <out>, or exit 1 and the error on stderr.
+pub fn lib_compress_main(job: &std::path::Path, out: &std::path::Path) -> i32 {
+    let run = || -> Result<(), String> {
+        let j: LibCompressJob = serde_json::from_slice(&std::fs::read(job).map_err(|e| e.to_string())?).map_err(|e| e.to_string())?;
+        let source = Arc::new(crate::gen::expand(&j.source));
+        let a = crate::util::block_on(compress_lib(source, &j.cfg, j.reads, &j.metadata))?;
+        std::fs::write(out, a).map_err(|e| e.to_string())
+    };
+    match run() {
+        Ok(()) => 0,
+        Err(e) => {
+            eprintln!("{}", e);
+            1
+        }
+    }
+}
+
+/// The same library writer call as `compress_lib`, made by a freshly started process: whatever the long-lived worker
+/// process has compressed before (other codecs, other levels) cannot reach it. Same input and options, same bytes.
+pub fn compress_lib_fresh_process(dir: &std::path::Path, source: &crate::gen::SourceSpec, cfg: &ArchCfg, reads: &ReadScript, metadata: &BTreeMap<String, Vec<u8>>) -> Result<Vec<u8>, String> {
+    let _ = std::fs::create_dir_all(dir);
+    let job = dir.join("libjob.json");
+    let out = dir.join("libjob.out");
+    let _ = std::fs::remove_file(&out);
+    let j = LibCompressJob { source: source.clone(), cfg: *cfg, reads: reads.clone(), metadata: metadata.clone() };
+    std::fs::write(&job, serde_json::to_vec(&j).map_err(|e| e.to_string())?).map_err(|e| format!("harness: {}", e))?;
+    let exe = std::env::current_exe().map_err(|e| format!("harness: {}", e))?;
+    let o = std::process::Command::new(exe).arg("--lib-compress").arg(&job).arg(&out).env("RUST_BACKTRACE", "0").output().map_err(|e| format!("harness: spawn: {}", e))?;
+    if !o.status.success() {
+        return Err(format!("library writer in a fresh process failed: {}", String::from_utf8_lossy(&o.stderr).trim()));
+    }
+    let a = std::fs::read(&out).map_err(|e| format!("harness: {}", e))?;
+    let _ = std::fs::remove_file(&job);
+    let _ = std::fs::remove_file(&out);
+    Ok(a)
+}
